@@ -431,8 +431,10 @@ def _build_layers(fi, n_hidden: int, list_args: bool):
         return None
 
     def on_call(e, name, args, kws, ev, f):
-        if name.split(".")[-1] in ("Linear", "TrunkLinear") and args and len(args) >= 2:
-            return _Layer("lin", args[0], args[1])
+        if name.split(".")[-1] in ("Linear", "TrunkLinear") and args is not None:
+            io = list(args[:2]) + [kws[k] for k in ("in_features", "out_features")[len(args[:2]):] if k in kws]
+            if len(io) == 2 and UNKNOWN not in io:
+                return _Layer("lin", io[0], io[1])
         if name.endswith("xavier_normal_") and args and isinstance(args[0], _Layer):
             args[0].gain = kws.get("gain", args[1] if len(args) > 1 else 1)
             return args[0]
@@ -482,7 +484,45 @@ def r6_builder_siblings(repo: Repo, rep):
         rep.check(R, dump(p.ret) == want, fw.site(p.ret_node), fw.fq, "output = reshape(sequential(<all ordered trunk inputs>))", dump(p.ret)[:140], dump(p.ret)[:140])
 
 
+def r8_no_inplace_state(repo: Repo, rep):
+    R = rep.rule("R-C09-8", "forward passes of the DeepONet parts neither change stored tensors in place (x.op_() on anything reached from self) nor flatten caller-supplied data with "
+                 ".view (which raises for strided inputs where .reshape copies)", floor=6,
+                 why="branch.current_out is reused by later forward calls: unsqueeze_ / mul_ on it makes the output depend on the call history; view() makes it depend on the memory layout of the input")
+    from ..util import deref, single_defs
+    n = 0
+    for mname, m in repo.modules.items():
+        if ".models.deeponet." not in mname:
+            continue
+        for ci in m.classes.values():
+            for fi in ci.methods.values():
+                if fi.name not in ("forward", "_forward_branch", "fix_input") and not fi.name.startswith("_reshape"):
+                    continue
+                if any(ends(dump(b), "autograd.Function") for b in ci.node.bases):
+                    continue
+                n += 1
+                rep.saw(fi)
+                tmp = single_defs(fi.node)
+                bad = []
+                for c in ast.walk(fi.node):
+                    if not (isinstance(c, ast.Call) and isinstance(c.func, ast.Attribute)):
+                        continue
+                    a = c.func.attr
+                    recv = deref(c.func.value, tmp)
+                    root = recv
+                    while isinstance(root, (ast.Attribute, ast.Subscript, ast.Call)):
+                        root = root.func if isinstance(root, ast.Call) else root.value
+                    if a.endswith("_") and not a.startswith("_") and isinstance(root, ast.Name) and root.id == "self" and not isinstance(recv, ast.Call):
+                        bad.append(f"in-place {dump(c)[:60]}")
+                    if a == "view" and c.args and any(isinstance(x, ast.Attribute) and x.attr in ("as_tensor", "_t") for x in ast.walk(recv)) \
+                            and any(isinstance(x, ast.Name) and x.id in fi.params and x.id != "self" for x in ast.walk(recv)):
+                        bad.append(f"view of caller data {dump(c)[:60]}")
+                rep.check(R, not bad, fi.site(), fi.fq, "stored tensors are read, caller data is reshaped", "; ".join(bad), f"{fi.name}: {bad}")
+    if n == 0:
+        rep.undecided(R, "src/torchphysics/models/deeponet", "-", "forward methods", "none found")
+
+
 def run(repo: Repo, rep):
+    r8_no_inplace_state(repo, rep)
     from .generic import g_arg_constructor_parameters
     g_arg_constructor_parameters(repo, rep, lambda m: ".models.deeponet" in m or ".functionsets" in m, floor=10,
                                  why="a trunk net that does not pass `trunk_input_copied` on keeps the fast path for inputs that are not copies of one location set")
